@@ -268,4 +268,16 @@ def c15_7(c: Ctx) -> None:
     c10_4(c)
 
 
+@ob('C15.8', 'WMC/MPT', 'what wait_until_idle() observes is everything that is in flight: events are processed only through the queue -> step / inline loop -> process_event chain (same '
+    'obligation as C01.6), enter the bus only through dispatch() (history insert before processing), and every dequeued event reaches process_event and its task_done() (same obligation '
+    'as C01.3) — an event processed by another entry point, or dropped after the dequeue, is invisible to join() and to the pending / started scan')
+def c15_8(c: Ctx) -> None:
+    from .c01 import c01_3, c01_6
+    from .c09 import check_dispatch_entry_points
+
+    c01_6(c)
+    check_dispatch_entry_points(c)
+    c01_3(c)
+
+
 OBLIGATIONS = ob.obs
